@@ -10,8 +10,10 @@ import (
 	"errors"
 	"fmt"
 	"io"
+	"os"
 	"strings"
 
+	"github.com/zeromicro/go-zero/core/logx"
 	"github.com/zeromicro/go-zero/core/syncx"
 	"github.com/zeromicro/go-zero/verifshim/vlib"
 	"github.com/zeromicro/go-zero/verifshim/vsched"
@@ -19,10 +21,27 @@ import (
 )
 
 type callSpec struct {
-	key string
-	ex  bool // DoEx
-	err bool // fn returns an error
-	pan bool // fn panics (the caller recovers above Do)
+	key  string
+	ex   bool   // DoEx
+	err  bool   // fn returns an error
+	pan  bool   // fn panics (the caller recovers above Do)
+	nest string // non-empty: fn makes a nested call on this (different) key of the same group before it returns
+}
+
+// callers lists every caller id of a scenario with its spec, nested calls included ("<thread>#<call>" and
+// "<thread>#<call>n" for the call made from inside that call's fn).
+func callers(threads [][]callSpec) map[string]callSpec {
+	out := map[string]callSpec{}
+	for ti, calls := range threads {
+		for ci, c := range calls {
+			me := fmt.Sprintf("%d#%d", ti, ci)
+			out[me] = c
+			if c.nest != "" {
+				out[me+"n"] = callSpec{key: c.nest}
+			}
+		}
+	}
+	return out
 }
 
 // ---- log records ----
@@ -80,9 +99,70 @@ func outcomeGuard(e *vsched.Exec) *vx.Verdict {
 
 // singleFlightScenario: threads[i] is the list of calls thread i issues in order.
 func singleFlightScenario(name string, threads [][]callSpec) vx.Scenario {
+	return singleFlightScenarioX(name, threads, false)
+}
+
+// collide: every hash computed through the engine's hash seams (hash/maphash, hash/fnv) is 0 for the
+// whole execution, so an implementation that picks a stripe / shard by a hash of the key puts all keys
+// into one; the oracle is unchanged (it is per key).
+func singleFlightScenarioX(name string, threads [][]callSpec, collide bool) vx.Scenario {
 	body := func() {
+		if collide {
+			vsched.HashCollide(true)
+		}
 		g := syncx.NewSingleFlight()
 		st := &state{}
+		var doCall func(me string, c callSpec)
+		doCall = func(me string, c callSpec) {
+			fn := func() (any, error) {
+				st.nexec++
+				id := fmt.Sprintf("x%d", st.nexec)
+				vsched.Log("S %s %s %s", id, c.key, me)
+				vsched.Op("in-fn")
+				if c.nest != "" {
+					doCall(me+"n", callSpec{key: c.nest})
+				}
+				if c.pan {
+					vsched.Log("P %s", id)
+					panic("fn panic")
+				}
+				vsched.Log("E %s", id)
+				if c.err {
+					return id, errors.New("err-" + id)
+				}
+				return id, nil
+			}
+			vsched.Log("C %s", me)
+			var v any
+			var err error
+			fresh := false
+			panicked := false
+			func() {
+				defer func() {
+					if r := recover(); r != nil {
+						panicked = true
+					}
+				}()
+				if c.ex {
+					v, fresh, err = g.DoEx(c.key, fn)
+				} else {
+					v, err = g.Do(c.key, fn)
+				}
+			}()
+			if panicked {
+				vsched.Log("RP %s", me)
+				return
+			}
+			if v == nil && err == nil {
+				vsched.Log("RN %s", me) // (nil, nil): only what waiters of a panicked execution may see
+				return
+			}
+			id, _ := v.(string)
+			if err != nil && err.Error() != "err-"+id {
+				id = id + "!mismatched-error"
+			}
+			vsched.Log("R %s %s %v %v", me, id, fresh, err != nil)
+		}
 		var wg vsched.WaitGroup
 		for ti, calls := range threads {
 			ti, calls := ti, calls
@@ -90,52 +170,7 @@ func singleFlightScenario(name string, threads [][]callSpec) vx.Scenario {
 			vsched.GoNamed(fmt.Sprintf("caller%d", ti), false, func() {
 				defer wg.Done()
 				for ci, c := range calls {
-					me := fmt.Sprintf("%d#%d", ti, ci)
-					fn := func() (any, error) {
-						st.nexec++
-						id := fmt.Sprintf("x%d", st.nexec)
-						vsched.Log("S %s %s %s", id, c.key, me)
-						vsched.Op("in-fn")
-						if c.pan {
-							vsched.Log("P %s", id)
-							panic("fn panic")
-						}
-						vsched.Log("E %s", id)
-						if c.err {
-							return id, errors.New("err-" + id)
-						}
-						return id, nil
-					}
-					vsched.Log("C %s", me)
-					var v any
-					var err error
-					fresh := false
-					panicked := false
-					func() {
-						defer func() {
-							if r := recover(); r != nil {
-								panicked = true
-							}
-						}()
-						if c.ex {
-							v, fresh, err = g.DoEx(c.key, fn)
-						} else {
-							v, err = g.Do(c.key, fn)
-						}
-					}()
-					if panicked {
-						vsched.Log("RP %s", me)
-						continue
-					}
-					if v == nil && err == nil {
-						vsched.Log("RN %s", me) // (nil, nil): only what waiters of a panicked execution may see
-						continue
-					}
-					id, _ := v.(string)
-					if err != nil && err.Error() != "err-"+id {
-						id = id + "!mismatched-error"
-					}
-					vsched.Log("R %s %s %v %v", me, id, fresh, err != nil)
+					doCall(fmt.Sprintf("%d#%d", ti, ci), c)
 				}
 			})
 		}
@@ -143,12 +178,11 @@ func singleFlightScenario(name string, threads [][]callSpec) vx.Scenario {
 	}
 	isEx := map[string]bool{}
 	wantErr := map[string]bool{}
-	for ti, calls := range threads {
-		for ci, c := range calls {
-			me := fmt.Sprintf("%d#%d", ti, ci)
-			isEx[me] = c.ex
-			wantErr[me] = c.err
-		}
+	keyOf := map[string]string{}
+	for me, c := range callers(threads) {
+		isEx[me] = c.ex
+		wantErr[me] = c.err
+		keyOf[me] = c.key
 	}
 	check := func(e *vsched.Exec) vx.Verdict {
 		if g := outcomeGuard(e); g != nil {
@@ -213,6 +247,9 @@ func singleFlightScenario(name string, threads [][]callSpec) vx.Scenario {
 			if !ok || !ended[x.exec] {
 				return vx.Verdict{Class: "sf-wrong-result", Msg: fmt.Sprintf("caller %s returned result of unknown/unfinished execution %s", x.caller, x.exec)}
 			}
+			if execKey[x.exec] != keyOf[x.caller] {
+				return vx.Verdict{Class: "sf-wrong-result", Msg: fmt.Sprintf("caller %s of key %s received the result of execution %s, which ran for key %s", x.caller, keyOf[x.caller], x.exec, execKey[x.exec])}
+			}
 			if x.hasErr != wantErr[ld] {
 				return vx.Verdict{Class: "sf-wrong-result", Msg: fmt.Sprintf("caller %s: error flag %v differs from execution %s", x.caller, x.hasErr, x.exec)}
 			}
@@ -274,7 +311,17 @@ func sortStrings(s []string) {
 // gate: the fn of the first "k" caller waits until the "q" caller has returned (different keys
 // must never wait for each other: a dependency shows up as a deadlock).
 func lockedCallsScenario(name string, threads [][]callSpec, gate bool) vx.Scenario {
+	return lockedCallsScenarioX(name, threads, gate, false)
+}
+
+// collide: all keys share a stripe under any hash-striped implementation (see singleFlightScenarioX).
+// A callSpec with nest makes a call on another key of the same group from inside its fn: "calls on
+// different keys never wait for each other" includes the caller itself (a self-deadlock otherwise).
+func lockedCallsScenarioX(name string, threads [][]callSpec, gate, collide bool) vx.Scenario {
 	body := func() {
+		if collide {
+			vsched.HashCollide(true)
+		}
 		g := syncx.NewLockedCalls()
 		gateCh := vsched.MakeChan[struct{}](0)
 		qLeft := 0 // the gate opens when EVERY call on key q has returned
@@ -285,6 +332,36 @@ func lockedCallsScenario(name string, threads [][]callSpec, gate bool) vx.Scenar
 				}
 			}
 		}
+		var doCall func(me string, c callSpec, gated bool)
+		doCall = func(me string, c callSpec, gated bool) {
+			vsched.Log("C %s", me)
+			v, err := g.Do(c.key, func() (any, error) {
+				vsched.Log("S %s %s %s", me, c.key, me)
+				if gated {
+					vsched.Recv(gateCh)
+				} else {
+					vsched.Op("in-fn")
+				}
+				if c.nest != "" {
+					doCall(me+"n", callSpec{key: c.nest}, false)
+				}
+				vsched.Log("E %s", me)
+				if c.err {
+					return me, errors.New("err-" + me)
+				}
+				return me, nil
+			})
+			id, _ := v.(string)
+			if err != nil && err.Error() != "err-"+id {
+				id += "!mismatched-error"
+			}
+			vsched.Log("R %s %s false %v", me, id, err != nil)
+			if gate && c.key == "q" && !strings.HasSuffix(me, "n") {
+				if qLeft--; qLeft == 0 { // ordered by the log event above: one thread runs at a time
+					vsched.Close(gateCh)
+				}
+			}
+		}
 		var wg vsched.WaitGroup
 		for ti, calls := range threads {
 			ti, calls := ti, calls
@@ -292,39 +369,21 @@ func lockedCallsScenario(name string, threads [][]callSpec, gate bool) vx.Scenar
 			vsched.GoNamed(fmt.Sprintf("caller%d", ti), false, func() {
 				defer wg.Done()
 				for ci, c := range calls {
-					me := fmt.Sprintf("%d#%d", ti, ci)
-					vsched.Log("C %s", me)
-					v, err := g.Do(c.key, func() (any, error) {
-						vsched.Log("S %s %s %s", me, c.key, me)
-						if gate && c.key == "k" && ti == 0 && ci == 0 {
-							vsched.Recv(gateCh)
-						} else {
-							vsched.Op("in-fn")
-						}
-						vsched.Log("E %s", me)
-						if c.err {
-							return me, errors.New("err-" + me)
-						}
-						return me, nil
-					})
-					id, _ := v.(string)
-					if err != nil && err.Error() != "err-"+id {
-						id += "!mismatched-error"
-					}
-					vsched.Log("R %s %s false %v", me, id, err != nil)
-					if gate && c.key == "q" {
-						if qLeft--; qLeft == 0 { // ordered by the log event above: one thread runs at a time
-							vsched.Close(gateCh)
-						}
-					}
+					doCall(fmt.Sprintf("%d#%d", ti, ci), c, gate && c.key == "k" && ti == 0 && ci == 0)
 				}
 			})
 		}
 		wg.Wait()
 	}
+	nested := false
+	for _, c := range callers(threads) {
+		nested = nested || c.nest != ""
+	}
 	check := func(e *vsched.Exec) vx.Verdict {
-		if e.Outcome == "deadlock" && gate {
-			return vx.Verdict{Class: "lc-cross-key-wait", Msg: "a call on key q waited for the running call on key k: " + strings.Join(e.Blocked(), " "), Sig: "deadlock"}
+		if e.Outcome == "deadlock" && (gate || nested) {
+			// no scenario of this family makes two threads wait for each other's KEY (nested calls go from k
+			// to q only), so a deadlock means that a call waited for a call on a different key
+			return vx.Verdict{Class: "lc-cross-key-wait", Msg: "a call waited for a running call on a DIFFERENT key: " + strings.Join(e.Blocked(), " "), Sig: "deadlock"}
 		}
 		if g := outcomeGuard(e); g != nil {
 			return *g
@@ -354,12 +413,9 @@ func lockedCallsScenario(name string, threads [][]callSpec, gate bool) vx.Scenar
 				}
 			}
 		}
-		for ti, calls := range threads {
-			for ci := range calls {
-				me := fmt.Sprintf("%d#%d", ti, ci)
-				if ran[me] != 1 {
-					return vx.Verdict{Class: "lc-not-exactly-once", Msg: fmt.Sprintf("function of caller %s ran %d times", me, ran[me])}
-				}
+		for _, me := range sortedKeys(callers(threads)) {
+			if ran[me] != 1 {
+				return vx.Verdict{Class: "lc-not-exactly-once", Msg: fmt.Sprintf("function of caller %s ran %d times", me, ran[me])}
 			}
 		}
 		return vx.Verdict{Sig: fmt.Sprintf("cross-key-overlaps=%d", overl)}
@@ -381,9 +437,47 @@ func (r *res) Close() error { return nil }
 
 // resourceManagerScenario: script[i][j] says whether the j-th create attempted by thread i fails.
 func resourceManagerScenario(name string, keys [][]string, fails [][]bool) vx.Scenario {
+	return resourceManagerScenarioX(name, keys, fails, rmOpts{})
+}
+
+type rmOpts struct {
+	collide    bool              // all keys share a stripe under any hash-striped implementation
+	nest       map[string]string // key -> other key whose resource the create function of key obtains from the same manager
+	inject     []string          // keys whose resource is injected (Inject) before the first GetResource
+	closeAtEnd bool              // the main thread closes the manager after all callers have returned
+}
+
+func resourceManagerScenarioX(name string, keys [][]string, fails [][]bool, o rmOpts) vx.Scenario {
 	body := func() {
+		if o.collide {
+			vsched.HashCollide(true)
+		}
 		m := syncx.NewResourceManager()
 		n := 0
+		for i, key := range o.inject {
+			m.Inject(key, &res{id: 1000 + i})
+			vsched.Log("I %s %d", key, 1000+i)
+		}
+		var get func(key string, fail bool) (io.Closer, error)
+		get = func(key string, fail bool) (io.Closer, error) {
+			return m.GetResource(key, func() (io.Closer, error) {
+				vsched.Op("in-create")
+				if nk := o.nest[key]; nk != "" {
+					if r, err := get(nk, false); err != nil {
+						vsched.Log("G %s err", nk)
+					} else {
+						vsched.Log("G %s %d", nk, r.(*res).id)
+					}
+				}
+				if fail {
+					vsched.Log("F %s", key)
+					return nil, errors.New("create failed")
+				}
+				n++
+				vsched.Log("K %s %d", key, n)
+				return &res{id: n}, nil
+			})
+		}
 		var wg vsched.WaitGroup
 		for ti := range keys {
 			ti := ti
@@ -392,16 +486,7 @@ func resourceManagerScenario(name string, keys [][]string, fails [][]bool) vx.Sc
 				defer wg.Done()
 				for ci, key := range keys[ti] {
 					fail := fails[ti][ci]
-					r, err := m.GetResource(key, func() (io.Closer, error) {
-						vsched.Op("in-create")
-						if fail {
-							vsched.Log("F %s", key)
-							return nil, errors.New("create failed")
-						}
-						n++
-						vsched.Log("K %s %d", key, n)
-						return &res{id: n}, nil
-					})
+					r, err := get(key, fail)
 					if err != nil {
 						vsched.Log("G %s err", key)
 					} else {
@@ -411,6 +496,10 @@ func resourceManagerScenario(name string, keys [][]string, fails [][]bool) vx.Sc
 			})
 		}
 		wg.Wait()
+		if o.closeAtEnd {
+			// nothing is demanded of Close by the statement: it must end (no deadlock, no panic)
+			_ = m.Close()
+		}
 	}
 	check := func(e *vsched.Exec) vx.Verdict {
 		if g := outcomeGuard(e); g != nil {
@@ -418,10 +507,13 @@ func resourceManagerScenario(name string, keys [][]string, fails [][]bool) vx.Sc
 		}
 		created := map[string][]string{}
 		got := map[string]map[string]bool{}
+		injected := map[string]string{}
 		nfail := 0
 		for _, l := range e.Log() {
 			f := strings.Fields(l)
 			switch f[0] {
+			case "I":
+				injected[f[1]] = f[2]
 			case "K":
 				created[f[1]] = append(created[f[1]], f[2])
 			case "F":
@@ -447,6 +539,13 @@ func resourceManagerScenario(name string, keys [][]string, fails [][]bool) vx.Sc
 				return vx.Verdict{Class: "rm-different-instances", Msg: fmt.Sprintf("callers of key %s received different instances %v", k, g)}
 			}
 			for id := range g {
+				if inj, ok := injected[k]; ok {
+					// the key's resource existed before the first call: that instance is the one everybody gets
+					if id != inj {
+						return vx.Verdict{Class: "rm-different-instances", Msg: fmt.Sprintf("key %s: instance %s was injected before the first call, a caller received instance %s (created %v)", k, inj, id, created[k])}
+					}
+					continue
+				}
 				if len(created[k]) == 0 || created[k][0] != id {
 					return vx.Verdict{Class: "rm-different-instances", Msg: fmt.Sprintf("key %s: instance %s handed out but created %v", k, id, created[k])}
 				}
@@ -458,6 +557,8 @@ func resourceManagerScenario(name string, keys [][]string, fails [][]bool) vx.Sc
 }
 
 func main() {
+	logx.Disable() // go-zero logs to stdout, which carries the worker protocol
+	logx.DisableStat()
 	cfg := vlib.ParseFlags("C07", "model_checking")
 	r := vlib.NewReport(cfg)
 	k, q := "k", "q"
@@ -494,14 +595,79 @@ func main() {
 		resourceManagerScenario("rm-2keys", [][]string{{k, q}, {q, k}}, [][]bool{{false, false}, {false, false}}),
 		resourceManagerScenario("rm-2+2", [][]string{{k, k}, {k, k}}, [][]bool{{true, false}, {false, false}}),
 	)
-	if cfg.Thorough() {
-		sc = append(sc,
-			singleFlightScenario("sf-4x1-kkkk", [][]callSpec{{c(k)}, {c(k)}, {c(k)}, {cx(k)}}),
-			singleFlightScenario("sf-2+2+1", [][]callSpec{{c(k), c(k)}, {c(k), cx(k)}, {c(k)}}),
-			lockedCallsScenario("lc-2+2+1", [][]callSpec{{c(k), c(k)}, {c(k), c(q)}, {c(k)}}, false),
-			resourceManagerScenario("rm-4x1", [][]string{{k}, {k}, {k}, {k}}, [][]bool{{true}, {false}, {false}, {false}}),
-		)
+	// ---- all keys in one stripe (vsched.HashCollide) + nested calls on another key ----
+	// On a tree without hashing the mode changes nothing: few, small duplicates. "Different keys never wait
+	// for each other" is decided by the gate (k's fn waits for the q caller to finish) and by a call on q made
+	// from inside k's fn (a key must not wait for ITSELF through another key either).
+	kn := func(key, nest string) callSpec { return callSpec{key: key, nest: nest} }
+	// duplicates of spaces that are explored above without the mode: P = 3 in both tiers (4 for the nested ones in thorough)
+	capP := func(s vx.Scenario, quickP, thoroughP int) vx.Scenario {
+		s.SetBound, s.P, s.T = true, quickP, 0
+		if cfg.Thorough() {
+			s.P = thoroughP
+		}
+		return s
 	}
+	sc = append(sc,
+		capP(lockedCallsScenarioX("lc-collide-gate-k,q", [][]callSpec{{c(k)}, {c(q)}}, true, true), 3, 5),
+		capP(lockedCallsScenarioX("lc-collide-gate-k,k,q", [][]callSpec{{c(k)}, {c(k)}, {c(q)}}, true, true), 3, 3),
+		capP(lockedCallsScenarioX("lc-collide-3x1-kkq", [][]callSpec{{c(k)}, {ce(k)}, {c(q)}}, false, true), 3, 3),
+		capP(lockedCallsScenarioX("lc-collide-nested-k>q,k", [][]callSpec{{kn(k, q)}, {c(k)}}, false, true), 3, 5),
+		capP(lockedCallsScenarioX("lc-collide-nested-k>q,q", [][]callSpec{{kn(k, q)}, {c(q)}}, false, true), 3, 5),
+		capP(singleFlightScenarioX("sf-collide-3x1-kkq", [][]callSpec{{c(k)}, {cx(k)}, {c(q)}}, true), 3, 3),
+		capP(singleFlightScenarioX("sf-collide-nested-k>q,k,q", [][]callSpec{{kn(k, q)}, {c(k)}, {cx(q)}}, true), 3, 4),
+		capP(resourceManagerScenarioX("rm-collide-2keys", [][]string{{k, q}, {q, k}}, [][]bool{{false, false}, {false, false}}, rmOpts{collide: true}), 3, 3),
+		capP(resourceManagerScenarioX("rm-collide-nested-k>q", [][]string{{k}, {q}, {k}}, [][]bool{{false}, {false}, {false}}, rmOpts{collide: true, nest: map[string]string{k: q}}), 3, 4),
+		// an injected resource is the key's instance: later callers get it and nothing is created for that key;
+		// the manager is closed at the end
+		capP(resourceManagerScenarioX("rm-inject-k", [][]string{{k, q}, {k}, {q}}, [][]bool{{false, false}, {false}, {true}}, rmOpts{inject: []string{k}, closeAtEnd: true}), 3, 4),
+	)
+	// SingleFlight's clients: cacheNode.Take over miniredis, collection.Cache.Take
+	sc = append(sc, cacheNodeScenarios(cfg.Thorough())...)
+	sc = append(sc, colCacheScenarios(cfg.Thorough())...)
+	if only := os.Getenv("C07_ONLY"); only != "" { // debugging aid: run the scenarios whose name contains one of the comma-separated strings
+		var keep []vx.Scenario
+		for _, x := range sc {
+			for _, o := range strings.Split(only, ",") {
+				if strings.Contains(x.Name, o) {
+					keep = append(keep, x)
+					break
+				}
+			}
+		}
+		sc = keep
+	}
+	if dbg := os.Getenv("C07_TRACE"); dbg != "" { // debugging aid: trace of the default schedule of one scenario
+		initEnv()
+		for _, x := range sc {
+			if x.Name == dbg {
+				e := vsched.Replay(nil, x.Body, 0)
+				fmt.Printf("outcome=%s points=%d\n", e.Outcome, len(e.Points()))
+				for _, l := range e.Trace() {
+					fmt.Println("   ", l)
+				}
+				fmt.Printf("verdict: %+v\n", x.Check(e))
+			}
+		}
+		os.Exit(0)
+	}
+	if p := os.Getenv("C07_P"); p != "" { // debugging aid: preemption bound of every scenario
+		for i := range sc {
+			sc[i].SetBound = true
+			fmt.Sscan(p, &sc[i].P)
+		}
+	}
+	// the cacheNode scenarios need miniredis + a warmed redis client, created outside any execution:
+	// in the worker process of such a scenario (vx names shard i "s<i>") and for every replay
+	if cfg.Replay != "" {
+		initEnv()
+	} else if cfg.Shard != "" {
+		var i int
+		if _, err := fmt.Sscanf(cfg.Shard, "s%d", &i); err == nil && i >= 0 && i < len(sc) && strings.HasPrefix(sc[i].Name, "cn-") {
+			initEnv()
+		}
+	}
+	r.Assume("cn-* scenarios: miniredis stands for Redis; the redis client is built with breaker.NopBreaker() and the redis package's process-global client manager is replaced by a stand-in that returns the existing client directly (white-box), so a redis call is one atomic step; an outage makes every data command answer with an error")
 	vx.Main(cfg, r, sc, vx.Bounds{P: 3, T: 0}, vx.Bounds{P: 5, T: 0},
 		"every interleaving (up to the preemption bound reported per scenario) of 2-4 threads issuing 1-2 SingleFlight.Do/DoEx, LockedCalls.Do or ResourceManager.GetResource calls on colliding keys; an execution is distinct/non-trivial by (scenario, observed sharing shape: which executions served how many callers)")
 }
